@@ -69,16 +69,23 @@ def GObs.fmt (o : GObs) : String :=
   " TD:" ++ fmtPairs o.toDir ++
   String.join (o.layers.map fun l => " " ++ l.fmt)
 
-def fmtBlock (ok : Bool) (obs : List GObs) : String :=
-  (if ok then "ok" else "err") ++ String.join (obs.map fun o => "#" ++ o.fmt)
+/-- blocks of a run: `<ok>` then `#<obs>` per live object; an object whose observation is literally
+    the one of the previous step is printed as `=` (pure compression, same on the Python side) -/
+def fmtRun (steps : List (Bool × List String)) : String :=
+  let rec go (prev : List String) : List (Bool × List String) → List String
+    | [] => []
+    | (ok, obs) :: rest =>
+      let cells := obs.zipIdx.map fun (o, i) => if prev[i]? == some o then "=" else o
+      ((if ok then "ok" else "err") ++ String.join (cells.map fun c => "#" ++ c)) :: go obs rest
+  "|".intercalate (go [] steps)
 
 def handleModel : Handler := fun a =>
   let n := a.nat "n"; let m := a.nat "m"
-  "|".intercalate ((Store.run [] (parseOps (a.get "ops"))).map fun r => fmtBlock r.2 (r.1.map (·.obs n m)))
+  fmtRun ((Store.run [] (parseOps (a.get "ops"))).map fun r => (r.2, r.1.map fun g => (g.obs n m).fmt))
 
 def handleSpec : Handler := fun a =>
   let n := a.nat "n"; let m := a.nat "m"
-  "|".intercalate ((AStore.run [] (parseOps (a.get "ops"))).map fun r => fmtBlock r.2 (r.1.map (·.obs n m)))
+  fmtRun ((AStore.run [] (parseOps (a.get "ops"))).map fun r => (r.2, r.1.map fun g => (g.obs n m).fmt))
 
 def handlers : List (String × Handler) := [("c02m", handleModel), ("c02s", handleSpec)]
 end C02
